@@ -35,6 +35,8 @@ REGISTRY = [
      ["tools/replay_real.sh", "findings/D9_D10_cloexec_noctty.rs", "verif_replay_d9"]),
     (r"open_tree\.cloexec",
      ["tools/replay_real.sh", "findings/D9_D10_cloexec_noctty.rs", "verif_replay_d10"]),
+    (r"frozenfd\.error_value_construction",
+     ["tools/replay_real.sh", "findings/D11_frozenfd_recursion.rs", "verif_replay_d11_error"]),
     (r"static GLOBAL_PROCFS_HANDLE",
      ["tools/replay_real.sh", "findings/D5c_global_procfs_init.rs", "verif_replay_d5c"]),
     (r"static PROTECTED_SYMLINKS_SYSCTL",
